@@ -254,6 +254,17 @@ def meterIncrease (m : Mach) : R Unit :=
     else (.ok (), { m with meter := m.meter + 1 })
   | none => (.ok (), { m with meter := m.meter + 1 })
 
+/-- `foreach_next`: replace the items of the innermost loop, logging the loop as it was.
+    The Rust reaches `loops.last_mut()` only after `loops[ls_len..].last()` succeeded; the primitive
+    carries that guard so that it is meaningful for every program. -/
+def setLoopItems (m : Mach) (c : Cell) : R Unit :=
+  match m.loops with
+  | l :: rest =>
+    if m.loops.length > m.ctx.lsLen then
+      (.ok (), ({ m with loops := { l with items := c } :: rest } : Mach).logStep (.loopNextBack l))
+    else (.err .loopStackUnderflow, m)
+  | [] => (.err .loopStackUnderflow, m)
+
 /-! ### native words: interpretation of `Prog` over the primitives -/
 
 def runProg : Prog → Mach → R Unit
@@ -316,15 +327,10 @@ def runProg : Prog → Mach → R Unit
   | .loopAt n k, m =>
     runProg (k ((m.loops.take (m.loops.length - m.ctx.lsLen))[n]?)) m
   | .setLoopItems c k, m =>
-    -- `foreach_next` reaches `loops.last_mut()` only after `loops[ls_len..].last()` succeeded;
-    -- the primitive carries that guard so that it is meaningful for every program
-    match m.loops with
-    | l :: rest =>
-      if m.loops.length > m.ctx.lsLen then
-        let m' : Mach := { m with loops := { l with items := c } :: rest }
-        runProg k (m'.logStep (.loopNextBack l))
-      else (.err .loopStackUnderflow, m)
-    | [] => (.err .loopStackUnderflow, m)
+    match m.setLoopItems c with
+    | (.ok (), m) => runProg k m
+    | (.err e, m) => (.err e, m)
+    | (.panic s, m) => (.panic s, m)
   | .stop k, m => runProg k { m with aboutToStop := true }
 
 /-! ### `fetch_and_run` -/
